@@ -118,17 +118,37 @@ def c10_histories(tier, seed, tmp, broken, k_fail, s_fail, ev_cov):
           % (nh + 28, len(lines), nk, len(mixed), nfresh, " / ".join(T[:2]), ns), flush=True)
 
 
+def c10_ops(rng, tier):
+    """per-object memo histories: one LunarHour / LunarDay value, pseudo-random queries, clones and steps (seeded in the op)"""
+    n = 1500 if tier == "quick" else 20000
+    L = []
+    for _ in range(n):
+        y = rng.choice([rng.randint(300, 9700), rng.randint(1900, 2100)])
+        m = rng.randint(1, 12)
+        d = rng.randint(1, 29)
+        kind = 0 if rng.random() < 0.6 else 1
+        ln = rng.choice([2, 3, 4, 6, 10, 25, 60])
+        h = rng.choice([0, 1, 11, 12, 21, 22, 23, rng.randint(0, 23)])
+        L.append("c10.objhist %d %d %d %d %d %d %d %d %d" % (kind, rng.randint(1, 10**9), ln, y, m, d, h, rng.randint(0, 59), rng.randint(0, 59)))
+    for bad in ["c10.objhist 0 1 5 2024 13 1 0 0 0", "c10.objhist 0 1 5 2024 1 1 24 0 0", "c10.objhist 1 1 5 2024 1 31 0 0 0", "c10.objhist 2 1 5 2024 1 1 0 0 0"]:
+        L.append(bad)
+    return L
+
+
 PROP = {
     "id": "C10",
     "thm_module": "Tyme.Thm.C10",
     "thm_file": "Tyme/Thm/C10.lean",
     "lean_targets": ["Tyme.Thm.C10"],
-    "audit_files": ["Tyme/Lemmas/Cache.lean", "Tyme/Model/Cache.lean"],
+    "audit_files": ["Tyme/Lemmas/Cache.lean", "Tyme/Model/Cache.lean", "Tyme/Model/ObjMemo.lean"],
     "streams": [],
+    "ops": c10_ops,
     "extra_checks": [c10_histories],
     "exhaustive": False,
     "rule": "seeded memo histories (reset; 2..200 from_ym requests drawn from a pool of colliding digit pairs, leap months, invalid months and years; key set via "
             "the guarded hook) run through the implementation in one process and through the Lean state machine, compared op by op; every answer compared with "
             "the cold-cache answer; a refusal injected at every position of a short history; mixed-API histories with interleaved refused requests vs cold "
-            "answers, vs a second process and vs fresh processes; 16- and 3-thread stress comparing every answer with the uncached constructor.",
+            "answers, vs a second process and vs fresh processes; 16- and 3-thread stress comparing every answer with the uncached constructor; "
+            "per-object memo histories (c10.objhist): 2..60 pseudo-random memoised queries, clones and next(n) on ONE LunarHour / LunarDay value, every "
+            "answer and every stepped value compared with the same operation on a value rebuilt from its numbers.",
 }
